@@ -7,6 +7,10 @@ CLAIMED = {
         "technique": "guard dominance on MIR (capture sites under the step test), totality of the Option-returning filter translator on HIR, must-precede of the negation check",
         "level": P + "Every site recording an event in a run is dominated by the step's type+predicate test; the VPL->SASE filter translator has no None path (callers drop the filter on None); global negations are applied before runs advance in all three entry points.",
     },
+    "C03": {
+        "technique": "guard dominance / loop re-test analysis on MIR (R-GUARD)",
+        "level": P + "Kleene events are accumulated only past the next_var >= max_events test; every pushed match is followed by a results.len() >= max_results re-test that leaves the loop (or the loop runs over take(max_results) with no filter in between), so the cap bounds emitted matches, not examined combinations; limits come from the configured fields. Which subsets are produced is not decided.",
+    },
     "C06": {
         "technique": "recursion-term extraction (R-SHAPE) on HIR compared with the ZDD recurrences",
         "level": P + "Each case of the top-variable comparison of union/intersection/difference/product (arena and stand-alone) builds exactly the term of Minato's recurrence, incl. terminal prefixes. Count/iteration/remapping are not decided.",
@@ -23,9 +27,29 @@ CLAIMED = {
         "technique": "per-variant delegation-cycle analysis on HIR (R-REC) and panicking-i64-arithmetic site scan on MIR (R-ARITH)",
         "level": P + "No Expr variant is passed unchanged around a cycle of evaluator functions (unbounded recursion), and the evaluator module contains no panicking i64 arithmetic. Index/slice panics and user-function recursion are not decided.",
     },
+    "C12": {
+        "technique": "must-pass-through / at-most-once of the buffer push, forward flow of drained batches, comparison normal forms and marker co-mutation on MIR",
+        "level": P + "In each add_shared the arriving event is stored exactly once on every path and drained batches reach the caller; tumbling closes iff event_time >= window_start + duration, session iff event_time - last > gap, count iff len >= count after the push; window_start / last_event_time are reset only together with a buffer drain; partitioned windows delegate to the plain ones.",
+    },
+    "C30": {
+        "technique": "who-may-write on the field index, guard normal forms and provenance of panicking float->Duration conversions on MIR",
+        "level": P + "tokens is written only by the clamped refill and by the decrement under tokens >= 1 after refill; admission only on the decrement path; no Duration::from_secs_f64 of a quotient without a positive-divisor test (accepted rate 0).",
+    },
+    "C33": {
+        "technique": "provenance slices of placement inputs and targets, transition-table extraction (R-FSM) on MIR",
+        "level": P + "Every place() input is is_available-filtered; every record fixing a target (DeployTask, MigratePipelinePlan, MigrationTask) gets it from place() or under is_available() == true; WorkerNode.status transitions and their guards match the contract table (Unhealthy only in the sweep under Ready and elapsed > timeout).",
+    },
+    "C35": {
+        "technique": "effect reachability over the call graph (R-DET), arm table, serde-attribute scan and provenance of LogState fields (cfg raft + persistent)",
+        "level": P + "apply_command reaches no clock/RNG/uuid/env/IO API; every ClusterCommand variant has an explicit arm; no CoordinatorState field is serde-skipped and install_snapshot replaces the whole state from the deserialised bytes; both stores' get_log_state make last_log_id depend on the purged id.",
+    },
     "C40": {
         "technique": "diagonal arm table of PartialEq and order-sensitivity of the Hash arms on HIR (R-EQHASH)",
         "level": P + "Value::eq is diagonal with payload comparisons (equivalence follows from payload types), unordered payloads are hashed order-independently, float eq classes match the hash normalisation, every variant is hashed.",
+    },
+    "C43": {
+        "technique": "unit (char vs byte) taint analysis of str slice indices on HIR, interprocedural through tuple returns and callers",
+        "level": P + "No str/String range slice in the LSP crate is indexed by a character-counted value (Position.character, .chars().count(), per-char loop counters, pest columns). Other panics and range validity are not decided.",
     },
     "C46": {
         "technique": "decision-list extraction and agreement (R-DLIST) on HIR",
